@@ -19,7 +19,7 @@ import types
 
 _counter = itertools.count()
 
-HEADER = '''from __future__ import annotations
+HEADER = '''# (no postponed annotations: field types are evaluated once, like in the repository tests)
 from abc import ABC
 from dataclasses import dataclass
 from typing import Annotated, Union
@@ -131,7 +131,7 @@ def build(spec) -> Built:
     name = f"verifg_{next(_counter)}"
     mod = types.ModuleType(name)
     sys.modules[name] = mod
-    exec(compile(src, f"<{name}>", "exec"), mod.__dict__)
+    exec(compile(src, f"<{name}>", "exec", dont_inherit=True), mod.__dict__)
     return Built(spec, mod, src)
 
 
@@ -357,3 +357,60 @@ def family(R, n, feats_list):
         feats = feats_list[i % len(feats_list)]
         out.append(gen_spec(R, feats, gid=f"g{i}"))
     return out
+
+
+# ------------------------------------------------------------------------------------------------
+# raw-source grammars (custom metahandlers): shaped after tests/representations/dependent_types_context_test.py,
+# whose dependent refinement makes a production infeasible in some contexts (VarRange over an empty context
+# raises SynthesisException and create_node backtracks)
+RAW_CTX = HEADER + '''
+import string
+from typing import Any, Callable
+from geneticengine.grammar.metahandlers.base import MetaHandlerGenerator
+from geneticengine.solutions.tree import GengyList
+
+class AnyContext(MetaHandlerGenerator):
+    def generate(self, random, grammar, base_type, rec, dependent_values):
+        return GengyList(str, [])
+    def validate(self, v) -> bool:
+        return True
+
+class ContextMH(MetaHandlerGenerator):
+    def __init__(self, ctx):
+        self.ctx = ctx
+    def generate(self, random, grammar, base_type, rec, dependent_values):
+        return rec(base_type, initial_values={"ctx": self.ctx})
+    def validate(self, v) -> bool:
+        return True
+
+class Expr(ABC):
+    pass
+
+@dataclass
+class Literal(Expr):
+    v: Annotated[int, IntRange(0, 3)]
+
+@dataclass
+class Let(Expr):
+    ctx: Annotated[list[str], AnyContext()]
+    name: Annotated[str, VarRange(list("abc"))]
+    body: Annotated[Expr, Dependent("ctx,name", lambda ctx, name: ContextMH(ctx + [name]))]
+
+@dataclass
+class Var(Expr):
+    ctx: Annotated[list[str], AnyContext()]
+    name: Annotated[str, Dependent("ctx", lambda ctx: VarRange(ctx))]
+'''
+
+RAW = [{"id": "ctx", "source": RAW_CTX, "start": "Expr", "names": ["Expr", "Literal", "Let", "Var"], "feats": ["raw"]}]
+
+
+def build_raw(raw) -> Built:
+    name = f"verifg_{next(_counter)}"
+    mod = types.ModuleType(name)
+    sys.modules[name] = mod
+    exec(compile(raw["source"], f"<{name}>", "exec", dont_inherit=True), mod.__dict__)
+    spec = {"id": raw["id"], "start": raw["start"],
+            "classes": [{"name": n, "abstract": n == raw["start"], "parent": "", "fields": []} for n in raw["names"]],
+            "feats": raw.get("feats", [])}
+    return Built(spec, mod, raw["source"])
